@@ -24,7 +24,8 @@ META = {
     "only) same-row simultaneous writes",
     "level_note": "trusted: Lean kernel, axioms propext/Quot.sound/Classical.choice; amaranth.lib.memory.Memory port "
     "semantics as modelled in TxV/Model/BankMem.lean (exercised, not verified); pysim; the harness glue. "
-    "memory_type is the default amaranth Memory (multiport memory classes are C23).",
+    "memory_type: the default amaranth Memory and other constructors of it (functools.partial, subclass, wrapper "
+    "function); multiport memory classes have no combinational read ports (C23).",
 }
 
 _sims: dict[tuple, CompSim] = {}
@@ -32,12 +33,15 @@ _sims: dict[tuple, CompSim] = {}
 
 def _sim(d: dict) -> CompSim:
     two = d.get("callers") == 2
-    key = (d["depth"], d["g"], d["n"], d["gran"], d["r"], d["w"], two)
+    key = (d["depth"], d["g"], d["n"], d["gran"], d["r"], d["w"], two, d.get("memory_type", "Memory"))
     if key not in _sims:
         from transactron.lib.storage import AsyncMemoryBank
 
+        from ..memtypes_b5 import memory_kwargs
+
+        kw = memory_kwargs(d.get("memory_type", "Memory"))
         mk = lambda: AsyncMemoryBank(  # noqa: E731
-            shape=d["g"] * d["n"], depth=d["depth"], granularity=d["gran"], read_ports=d["r"], write_ports=d["w"]
+            shape=d["g"] * d["n"], depth=d["depth"], granularity=d["gran"], read_ports=d["r"], write_ports=d["w"], **kw
         )
         if not two:
             _sims[key] = CompSim(mk)
@@ -280,6 +284,27 @@ def gen_cases(ctx: Check):
             good.append(Case(cfg, gen_ops(rng, d, cyc, pr, pw, hot=rng.random() < 0.5), d, "random"))
         if d["w"] > 1:
             malformed.append(Case(cfg, gen_ops(rng, d, cyc // 2, 0.8, 0.9, distinct=False, hot=True), d, "malformed"))
+    # other constructors of the same Amaranth memory as memory_type (functools.partial with attrs, a subclass, a
+    # wrapper function): behaviour must not depend on the identity of the constructor.  Directed: write a row != 0,
+    # read it in the next cycle and after an idle cycle, read another row right after; then random
+    from ..memtypes_b5 import ALIASES
+
+    for k, mt in enumerate(ALIASES):
+        depth, g, n, gran, r, w = [(4, 8, 1, None, 1, 1), (5, 4, 2, 4, 2, 2), (8, 3, 3, 3, 2, 1)][k]
+        d = dict(_desc(depth, g, n, gran, r, w), memory_type=mt)
+        width, full = g * n, (1 << n) - 1
+        N = [None] * w
+        ops = [
+            fmt_op([None] * r, [(2, 0x5A & ((1 << width) - 1), full)] + [None] * (w - 1)),
+            fmt_op([2] * r, N),
+            fmt_op([None] * r, N),
+            fmt_op([2] * r, [(3, 0x33 & ((1 << width) - 1), full)] + [None] * (w - 1)),
+            fmt_op([3] * r, N),
+            fmt_op([2] * r, N),
+            fmt_op([0] * r, N),
+        ]
+        ops += gen_ops(rng, d, cyc, 0.8, 0.6, hot=rng.random() < 0.5)
+        good.append(Case(_cfg(d), ops, d, "memory-type"))
     # two callers per method: an exclusive method serves at most one of them per cycle; the union of the executed
     # calls is the single-caller history the property (and the model) talks about
     for depth, g, n, gran, r, w in [(4, 8, 1, None, 1, 1), (5, 4, 2, 4, 2, 2), (3, 2, 3, 2, 1, 2), (8, 8, 1, None, 2, 1)]:
